@@ -20,7 +20,7 @@ func genProgram(g *tape.Stream, p *Profile, isFinal bool) []Act {
 		switch op {
 		case OpWriteHeader:
 			a.A = int32(StatusCodes[g.Intn(len(StatusCodes))])
-		case OpWrite:
+		case OpWrite, OpCopy:
 			a.A = int32(g.Intn(24))
 		case OpNext, OpNextSwallow:
 			if nexts >= p.NextMax {
@@ -130,6 +130,7 @@ func GenRequests(g *tape.Stream, fg *tape.Stream, s *Setup, p *Profile) [][]*Req
 			if g.Intn(4) == 1 {
 				q.Hijacker = 1
 			}
+			q.ReaderFrom = g.Intn(3) == 1
 			switch g.Intn(6) {
 			case 1:
 				q.Host = "localhost"
@@ -216,7 +217,7 @@ func CloneForTwin(in [][]*Req) [][]*Req {
 	for i := range in {
 		for _, r := range in[i] {
 			c := &Req{ID: r.ID, Name: r.Name, Chain: r.Chain, Body: r.Body, CtxErr: r.CtxErr, Host: r.Host, Method: r.Method, Path: r.Path, Query: r.Query, Hdr: r.Hdr, Progs: r.Progs, Rets: r.Rets,
-				WPlan: r.WPlan, Flusher: r.Flusher, Hijacker: r.Hijacker, Tag: r.Tag}
+				WPlan: r.WPlan, Flusher: r.Flusher, Hijacker: r.Hijacker, ReaderFrom: r.ReaderFrom, Tag: r.Tag}
 			c.PlannedCancel = r.PlannedCancel
 			if r.AsyncCancelAt >= 0 {
 				c.PlannedCancel = r.AsyncCancelAt
